@@ -149,6 +149,12 @@ func (c *channel) enqueue(req request, responseChan chan<- response, streaming b
 	case <-c.parentCtx.Done():
 		c.routeResponse(req.msg.Metadata.MessageID, response{nid: c.node.ID(), err: fmt.Errorf("channel closed")})
 		return
+	case <-req.ctx.Done():
+		// the sender may be busy with (or blocked on) an earlier message for an arbitrarily
+		// long time; the caller must not wait for it beyond its own context. The caller
+		// observes the end of its context itself, so the router is only removed.
+		c.deleteRouter(req.msg.Metadata.MessageID)
+		return
 	case c.sendQ <- req:
 	}
 }
